@@ -55,7 +55,7 @@ def run_cases(mod, cases):
             mo = mo if mo == SKIP else canon(mo)
         except Exception as e:
             mo = {"__model_decode_error__": repr(e), "raw": answers[a:b][:3]}
-        agree = (mo == SKIP) or (mo == io)
+        agree = (mo == SKIP) or (mod.agree(io, mo) if hasattr(mod, 'agree') else mo == io)
         try:
             orc = mod.oracle(c, io)
         except Exception as e:
